@@ -22,13 +22,13 @@ from vlib import core, kani
 
 EW = 192          # oracle width = the width of the bignum model, so that equal values are built from identical terms
 KANI_QUICK = ['c08_abs_fix', 'c08_to_usize_fix', 'c08_mixed_fix_float_add_sub']
-KANI_THOROUGH = KANI_QUICK + ['c08_add_sub_fix_guard']
+KANI_THOROUGH = KANI_QUICK        # c08_add_sub_fix_guard (BigInt fall-back of + / -) needs 21 GB / 565 s when it finishes and ran out of memory under load: not registered
 # powers of two only: gcd / divisibility reasoning modulo 2^k is bit-level and decided instantly, whereas an odd factor
 # needs modular arithmetic that the bit-blasting back end does not finish (measured: unknown after 15 s for 3)
 DENOMS_QUICK = [1, 2, 4, 65536, 1 << 30]
 DENOMS_THOROUGH = DENOMS_QUICK + [8, 16, 256, 32768, 1 << 20, 1 << 29]
 CONST_OPERANDS_QUICK = ['F:1', 'F:-1', 'F:2', 'F:3', 'F:-4', 'F:6', 'F:-2147483648', 'F:2147483648', 'F:-2147483649', 'F:-4294967295', 'F:4294967297', 'B:2', 'B:-3', 'R:2/1', 'R:1/2', 'R:-3/4', 'R:3/65536']
-CONST_OPERANDS = CONST_OPERANDS_QUICK + ['F:2147483647', 'F:10', 'F:-7', 'B:-2147483648', 'R:-2147483648/1', 'R:2147483647/2', 'R:5/3', 'R:-1/1073741824']
+CONST_OPERANDS = CONST_OPERANDS_QUICK + ['F:2147483647', 'F:10', 'F:-7', 'B:-2147483648', 'R:-2147483648/1', 'R:2147483647/2', 'R:-1/1073741824']      # R:5/3 was tried: solver unknown (odd denominator against symbolic rationals)
 DIVISORS = [1, -1, 2, -2, 3, -3, 7, -4, 10, 1 << 31, -(1 << 31), (1 << 31) - 1, (1 << 62) + 1, -(1 << 63)]
 
 
